@@ -115,6 +115,21 @@ def affix_config(table, case):
     return {"rule": rules}, set(rules)
 
 
+NUMBER_OF_SPACES_FORMS = [">1", "2+", ">=2", 2, 0, ">0"]      # the documented forms: N, >N, >=N, N+
+
+
+def number_of_spaces_config(table, value):
+    """every rule that has the documented option number_of_spaces gets `value`"""
+    rules = {}
+    for rid in sorted(table):
+        if "number_of_spaces" in table[rid].get("attrs", []):
+            s = {"number_of_spaces": value}
+            if table[rid]["disabled_by_default"]:
+                s["disable"] = False
+            rules[rid] = s
+    return {"rule": rules}, set(rules)
+
+
 def max_sweeps(table):
     return max([len(t["settings"]) - 1 for t in table.values()] + [0])
 
